@@ -11,6 +11,7 @@ import random
 
 import vlib
 import wikigen
+from props import c11
 
 MARK = "M"
 
@@ -58,6 +59,11 @@ def one_case(seed):
         return text, None, None, False
     ops_done = []
     nested = False
+    # live section views held across the edits (40% of the cases): they must stay what they were minus
+    # what was removed, and they are edit targets themselves
+    secs = []
+    if rng.random() < 0.4:
+        secs = page.get_sections(flat=rng.random() < 0.5, include_lead=True)[:6]
     for step in range(rng.randint(1, 4)):
         nodes = page.filter()
         if not nodes:
@@ -67,6 +73,45 @@ def one_case(seed):
         keep_alive = list(nodes)
         kind = rng.random()
         val, vtext = make_value(rng, "%d_%d" % (seed % 1000, step))
+        snap = c11.snapshot(page, secs) if secs else None
+        if secs and kind < 0.2:
+            # ---- a section view as the target
+            j = rng.randrange(len(secs))
+            v = secs[j]
+            vn = list(v.nodes)
+            top = list(page.nodes)
+            ids_top = [id(x) for x in top]
+            a = ids_top.index(id(vn[0])) if vn and id(vn[0]) in ids_top else None
+            if a is None or [id(x) for x in vn] != ids_top[a:a + len(vn)]:
+                if vn:
+                    return text, ops_done, "a held section view is not a run of the page's nodes before the edit", nested
+                continue
+            pre = "".join(str(x) for x in top[:a])
+            post = "".join(str(x) for x in top[a + len(vn):])
+            vt = "".join(str(x) for x in vn)
+            op = rng.choice(["insert_before", "insert_after", "replace", "remove"])
+            ops_done.append((op, "view", vt[:30], repr(vtext)[:30]))
+            try:
+                if op == "remove":
+                    page.remove(v)
+                    exp = pre + post
+                elif op == "replace":
+                    page.replace(v, val)
+                    exp = pre + vtext + post
+                elif op == "insert_before":
+                    page.insert_before(v, val)
+                    exp = pre + vtext + vt + post
+                else:
+                    page.insert_after(v, val)
+                    exp = pre + vt + vtext + post
+            except Exception as e:  # noqa: BLE001
+                return text, ops_done, "%s with a section view as target raised %r" % (op, e), nested
+            if str(page) != exp:
+                return text, ops_done, "%s(view): text is %r, expected %r" % (op, str(page)[:120], exp[:120]), nested
+            msg = c11.oracle_loose(page, secs, snap)
+            if msg:
+                return text, ops_done, "after %s(view): %s" % (op, msg), nested
+            continue
         if kind < 0.55:
             # ---- node target
             n = rng.choice(nodes)
@@ -162,6 +207,18 @@ def one_case(seed):
             kept = [x for x in now if x in set(old_ids)]
             if op != "set" and kept != old_ids:
                 return text, ops_done, "%s changed the identity or order of other nodes" % op, nested
+        elif secs and kind < 0.93:
+            # ---- index edits on the page while views are alive (negative indices, empty values = deletion)
+            L = len(page.nodes)
+            i = rng.randint(-L, L - 1) if L else 0
+            ops_done.append(("set", "index+views", i, repr(vtext)[:30]))
+            try:
+                page.set(i, val)
+            except (IndexError, ValueError):
+                continue
+            msg = c11.oracle(page, secs, snap, None, True)
+            if msg:
+                return text, ops_done, "after set(%d, %r) on the page: %s" % (i, vtext[:20], msg), nested
         else:
             # ---- string target
             n = rng.choice(nodes)
